@@ -159,8 +159,13 @@ class Scenario:
                 for i, (n, d, since, until) in enumerate(history):
                     if n == key and until is None:
                         history[i] = (n, d, since, w.now_ms)
-                info = infos[key]
-                info.port = desc.port
+                if self.variant.get("new_object"):
+                    info = infos[key] = make_info(desc)  # the application describes the service anew
+                else:
+                    info = infos[key]  # ... or changes the object it registered
+                    info.port = desc.port
+                    if sorted(info.addresses) != sorted(desc.v4 + desc.v6):
+                        info.addresses = desc.v4 + desc.v6
                 task = await host.zc.async_update_service(info)
                 history.append((key, desc, w.now_ms, None))
                 await task
@@ -216,9 +221,11 @@ class Scenario:
                 # as additionals) waits in the one-second protection queue; the service is updated meanwhile; a browser on a
                 # third host, started after everything has been sent, must resolve what is advertised now
                 assert C is not None
-                ops.append((1000, lambda: w.spawn(op_register(A, "S1", S1))))
+                base = S1 if not v.get("cased") else Svc(TA, "S1 Upper._a._tcp.local.", "H1.local.", 80, b"\x03a=b", S1.v4, [])
+                ops.append((1000, lambda: w.spawn(op_register(A, "S1", base))))
                 ops.append((v["browse_at"], lambda: start_browser("B/a", B, TA)))
-                newer = Svc(S1.type, S1.name, S1.server, S1.port + 1, S1.text, S1.v4, S1.v6)
+                newer = Svc(base.type, base.name, base.server, base.port + 1, base.text,
+                            [bytes([10, 0, 0, 77])] if v.get("addr") else base.v4, base.v6)
                 ops.append((v["update_at"], lambda: w.spawn(op_update(A, "S1", newer))))
                 ops.append((v["update_at"] + 3000, lambda: start_browser("C/a", C, TA)))
                 checkpoints.append(v["update_at"] + 3000 + SETTLE_MS)
@@ -339,6 +346,13 @@ def plan(tier: str) -> List[Tuple[str, Dict[str, Any], int]]:
             ("update-queued", {"browse_at": 1850, "update_at": 2000, "qm": True}, 1),
             ("update-queued", {"browse_at": 1850, "update_at": 2000, "qm": True, "late": True}, 2),
             ("update-queued", {"browse_at": 1850, "update_at": 2600, "qm": True, "late": True}, 1),
+            ("update-queued", {"browse_at": 1850, "update_at": 2000, "qm": True, "late": True, "cased": True}, 1),
+            # (an address can only be replaced more than a second after it was last announced: a cache-flush record leaves
+            # younger records of its name alone, RFC 6762 s.10.2 - so these updates come 900 ms after the last announcement
+            # reached the caches, which is still before the protected answer leaves)
+            ("update-queued", {"browse_at": 1850, "update_at": 2700, "qm": True, "late": True, "addr": True}, 1),
+            ("update-queued", {"browse_at": 1850, "update_at": 2700, "qm": True, "late": True, "new_object": True, "addr": True}, 1),
+            ("update-queued", {"browse_at": 1850, "update_at": 2000, "qm": True, "late": True, "new_object": True, "cased": True}, 1),
             ("stale-cache", {"browse_at": 2_400_000}, 2), ("stale-cache", {"browse_at": 3_900_000}, 1),
             ("stale-cache", {"browse_at": 2_400_000, "multi": True}, 1),
             ("three", {"browse_at": 500, "long": True}, 1), ("three", {"browse_at": 6000, "late": True, "long": True}, 1),
@@ -359,7 +373,9 @@ def run(tier: str, seed: int) -> Tuple[Stats, str, List[str], Dict[str, Any]]:
         if a[0] is None and a[2] < 8:
             raise HarnessError(f"C07 scenario {name} is vacuous: {a[2]} datagrams in the default execution")
         label = f"{name}/{variant['browse_at']}{'/late' if variant.get('late') else ''}{'/multi' if variant.get('multi') else ''}{'/' + variant['socks'] if variant.get('socks') else ''}{'/' + variant['how'] + '+' + str(variant['after']) if name == 'leave' else ''}{'/qm' if variant.get('qm') else ''}{'/long' if variant.get('long') else ''}" + (
-            f"/unreg+{variant['unregister_after']}" if name == "churn" else "")
+            f"/unreg+{variant['unregister_after']}" if name == "churn" else "") + "".join(
+            f"/{k}={variant[k]}" if not isinstance(variant[k], bool) else f"/{k}" for k in ("update_at", "cased", "addr", "new_object")
+            if k in variant and name == "update-queued")
         done = explore_deviations(sc.run, bound, stats, label,
                                   max_execs=None if tier == "quick" else 1_500_000)
         completed[label] = done
